@@ -811,7 +811,7 @@ func Run(c *core.Ctx) {
 		for i := 0; i < c.Scale(30, 500); i++ {
 			genClif(c)
 		}
-		for i := 0; i < c.Scale(12, 100); i++ {
+		for i := 0; i < c.Scale(30, 60); i++ {
 			genItems(c, true)
 		}
 	}
